@@ -130,9 +130,12 @@ def req_C01(r, tier):
         # backend); stored witnesses first, then fresh near-misses of the same shape
         # (IFMA only: the raw pre-images use limbs up to 2^64, outside the `< 2^58` domain of the AVX2 `new`)
         for (wx, wy) in (margin_corpus() if A == "ifma" else []):
-            for lanesel in range(2):
-                X = [ilst(unreduce_preimage(wx if (j + lanesel) % 2 == 0 else limbs51(r, 51, "rand"))) for j in range(4)]
-                Y = [ilst(unreduce_preimage(wy if (j + lanesel) % 2 == 0 else limbs51(r, 51, "rand"))) for j in range(4)]
+            # the witness in lanes (A, C) or (B, D); the other two lanes random or ZERO (a wrapped `16p - x` that is then added to
+            # another lane is only visible when that lane's top limb is tiny, otherwise the addition wraps back)
+            for lanesel in range(4):
+                other = (lambda: limbs51(r, 51, "rand")) if lanesel < 2 else (lambda: [0] * 5)
+                X = [ilst(unreduce_preimage(wx if (j + lanesel) % 2 == 0 else other())) for j in range(4)]
+                Y = [ilst(unreduce_preimage(wy if (j + lanesel) % 2 == 0 else other())) for j in range(4)]
                 for op in ("mul_negate_lazy", "mul_diff_sum", "mul"):
                     out.append(("vfel.%s.%s:margin_corpus" % (A, op), "vfel.%s.%s %s %s" % (A, op, " ".join(X), " ".join(Y))))
         for i in range(sz(tier, 40, 2000) if A == "ifma" else 0):
